@@ -9,7 +9,8 @@
   * `foldExch` computes, from the publisher's side alone, the map  SID ↦ service  that is currently
     granted and neither unsubscribed nor lost;   `stepOk` demands that the observed routing equals it;
   * a call that ended with a grant returns that SID and the granted timeout (`grantedTimeout`);
-  * a refused renewal is followed by a fresh SUBSCRIBE for the same service, an unreachable one is not;
+  * within a call, per service: fresh SUBSCRIBEs = refused renewals (+1 for a subscribe call) — a refused
+    renewal falls back to a fresh subscription, an unreachable one does not (`fallbackOk`);
   * every request is valid GENA (`validReq`).
   A 200 whose TIMEOUT header mentions `Second-` but is neither `Second-<digits>` (representable) nor
   `Second-infinite` is outside the property (DESIGN §5 C09 residual): judging stops at that call.
@@ -118,8 +119,9 @@ def lastGrant : List Exch → Option (Str × Option Str)
     else none
   | _ :: r => lastGrant r
 
-/-- refused renewal ⇒ next request is a fresh SUBSCRIBE for the same service; unreachable ⇒ it is not -/
-def fallbackOk : List Exch → Bool
+/-- (sequential form, used for the non-suspending model only) refused renewal ⇒ the next request is a
+    fresh SUBSCRIBE for the same service; unreachable ⇒ it is not -/
+def fallbackAdjacent : List Exch → Bool
   | [] => true
   | e :: rest =>
     (if isRenewal e.req then
@@ -128,7 +130,11 @@ def fallbackOk : List Exch → Bool
         if status = 200 then true
         else (match rest with | n :: _ => isInitial n.req && n.req.svc == e.req.svc | [] => false)
       | _ => (match rest with | n :: _ => !(isInitial n.req && n.req.svc == e.req.svc) | [] => true)
-    else true) && fallbackOk rest
+    else true) && fallbackAdjacent rest
+
+def refusedRenewalFor (j : Nat) (e : Exch) : Bool :=
+  isRenewal e.req && e.req.svc == j && (match e.react with | .resp st _ _ => st != 200 | _ => false)
+def initialFor (j : Nat) (e : Exch) : Bool := isInitial e.req && e.req.svc == j
 
 /-! ### one observed step -/
 
@@ -175,6 +181,20 @@ def targetOk (s : Step) : Bool :=
     | .unsubscribe (.svc i) => e.req.svc == i && e.req.method == mUNSUBSCRIBE
     | _ => true
 
+def callBonus (c : Call) (j : Nat) : Nat :=
+  match c with
+  | .subscribe i _ => if i = j then 1 else 0
+  | _ => 0
+
+/-- for service `j`, within one call: the fresh SUBSCRIBEs are exactly one per refused renewal (plus the
+    one a subscribe call makes) — a refused renewal falls back, an unreachable one does not, nothing else
+    subscribes.  Independent of the order in which concurrent requests of a `*_all` call go out. -/
+def fallbackAt (c : Call) (l : List Exch) (j : Nat) : Bool :=
+  l.countP (initialFor j) == l.countP (refusedRenewalFor j) + callBonus c j
+
+def fallbackOk (c : Call) (l : List Exch) : Bool :=
+  (l.map (·.req.svc) ++ (match c with | .subscribe i _ => [i] | _ => [])).all (fallbackAt c l)
+
 def routedOk (exp : PyDict Str Nat) (s : Step) : Bool :=
   s.routed.all (fun p => p.2 == get? exp p.1)
   && s.sidFor.all (fun p => match p.2 with
@@ -185,7 +205,7 @@ def stepInScope (s : Step) : Bool := s.exch.all exchInScope
 
 def stepOk (exp : PyDict Str Nat) (s : Step) : Bool :=
   routedOk (s.exch.foldl foldExch exp) s
-  && resultOk s && targetOk s && fallbackOk s.exch && s.exch.all (fun e => validReq e.req)
+  && resultOk s && targetOk s && fallbackOk s.call s.exch && s.exch.all (fun e => validReq e.req)
 
 /-- **C09.ok** — judge of a whole history, starting from an empty registry -/
 def okFrom : PyDict Str Nat → List Step → Bool
@@ -202,6 +222,17 @@ namespace Upnp.C09
 open Upnp PyDict
 
 /-- the step record of the MODEL for one call (what the driver compares the implementation's with) -/
+def modelStepS (cfg : Cfg) (susp : Bool) (probes : List Str) (nsvc : Nat) (rt : Routing) (c : Call) (rs : List Reaction) : Step :=
+  let o := runCallS cfg susp rt c rs
+  { call := c, exch := o.exch, res := o.res,
+    routed := probes.map fun s => (s, get? o.rt s),
+    sidFor := (List.range nsvc).map fun i => (i, sidForService o.rt i) }
+
+/-- … with a suspending / non-suspending requester -/
+def modelTraceS (cfg : Cfg) (susp : Bool) (probes : List Str) (nsvc : Nat) : Routing → List (Call × List Reaction) → List Step
+  | _, [] => []
+  | rt, (c, rs) :: h => modelStepS cfg susp probes nsvc rt c rs :: modelTraceS cfg susp probes nsvc (runCallS cfg susp rt c rs).rt h
+
 def modelStep (cfg : Cfg) (probes : List Str) (nsvc : Nat) (rt : Routing) (c : Call) (rs : List Reaction) : Step :=
   let o := runCall cfg rt c rs
   { call := c, exch := o.exch, res := o.res,
